@@ -269,12 +269,17 @@ func ecsInit() {
 }
 
 func ecsNewRig(kind string, override bool) *ecsRig {
+	return ecsNewRigGeo(kind, override, ecsGeoIP, agdcache.EmptyManager{})
+}
+
+// ecsNewRigGeo is ecsNewRig with the given GeoIP database and cache manager.
+func ecsNewRigGeo(kind string, override bool, geo geoip.Interface, mgr agdcache.Manager) *ecsRig {
 	up := &ecsUpstream{kind: kind}
 	cache := ecscache.NewMiddleware(&ecscache.MiddlewareConfig{
 		Cloner:       ecsCloner,
 		Logger:       slogutil.NewDiscardLogger(),
-		CacheManager: agdcache.EmptyManager{},
-		GeoIP:        ecsGeoIP,
+		CacheManager: mgr,
+		GeoIP:        geo,
 		MinTTL:       ecsMinTTL,
 		NoECSCount:   200,
 		ECSCount:     200,
@@ -290,7 +295,7 @@ func ecsNewRig(kind string, override bool) *ecsRig {
 		AccessManager:    ecsAccess,
 		DeviceFinder:     ecsFinder,
 		ErrColl:          ecsErrColl,
-		GeoIP:            ecsGeoIP,
+		GeoIP:            geo,
 		Metrics:          ratelimitmw.EmptyMetrics{},
 		Limiter:          ecsLimiter,
 		Protocols:        []agd.Protocol{agd.ProtoDNS},
